@@ -24,9 +24,10 @@ uninitialised slot = use of uninitialised / already moved-out memory, i.e. dupli
 Core Lean only.
 -/
 import RtcModel.Base.C20Word
+import RtcModel.Generated.Consts
 
 namespace RtcModel.Spsc
-open RtcModel.C20Word
+open RtcModel.C20Word RtcModel.Generated
 
 /-- a sample: (producer tag, payload) — the tag is what the harness writes into the payload too -/
 abbrev Val := Nat × Nat
@@ -60,8 +61,8 @@ structure Ring where
 /-- `SpscRing::with_capacity(cap)` on a machine with word modulus `W`; `start` is 0 in the code
 (the `verif_with_start` hook starts both indices elsewhere to reach the wrap-around). -/
 def Ring.init (cap W start : Nat) : Ring :=
-  { cap, W, head := start % W, tail := start % W, slots := fun _ => none,
-    log := [], tcount := start, hcount := start, outs := [], bad := [] }
+  { cap, W, head := (start + spscInitHead) % W, tail := (start + spscInitTail) % W, slots := fun _ => none,
+    log := [], tcount := start + spscInitTail, hcount := start + spscInitHead, outs := [], bad := [] }
 
 inductive PushPc
   | ldTail
@@ -81,7 +82,7 @@ def Ring.writeSlot (r : Ring) (i : Nat) (v : Val) : Ring :=
            bad := if (r.slots i).isSome then r.bad ++ [Bad.overwrite i] else r.bad }
 
 def Ring.storeTail (r : Ring) (tl : Nat) : Ring :=
-  { r with tail := winc r.W tl, tcount := r.tcount + 1 }
+  { r with tail := wadd r.W tl spscPushInc, tcount := r.tcount + 1 }
 
 /-- one shared-memory access of `SpscRing::push(v)` -/
 def pushStep (r : Ring) (v : Val) : PushPc → Ring × PushOut
@@ -112,7 +113,7 @@ def Ring.readSlot (r : Ring) (i : Nat) : Ring × Val :=
   | none => ({ r with bad := r.bad ++ [Bad.readUninit i] }, junk)
 
 def Ring.storeHead (r : Ring) (hl : Nat) (v : Val) : Ring :=
-  { r with head := winc r.W hl, hcount := r.hcount + 1, outs := r.outs ++ [v] }
+  { r with head := wadd r.W hl spscPopInc, hcount := r.hcount + 1, outs := r.outs ++ [v] }
 
 /-- one shared-memory access of `SpscRing::pop()` -/
 def popStep (r : Ring) : PopPc → Ring × PopOut
@@ -135,8 +136,41 @@ def dropLoop (r : Ring) (acc : List Val) : Nat → Nat → Ring × List Val
   | fuel + 1, h =>
     if h = r.tail then (r, acc) else
       let (r', v) := r.readSlot (h % r.cap)
-      dropLoop r' (acc ++ [v]) fuel (winc r.W h)
+      dropLoop r' (acc ++ [v]) fuel (wadd r.W h spscDropInc)
 
 def Ring.drop (r : Ring) : Ring × List Val := dropLoop r [] r.W r.head
+
+/-! ### the ring alone: one pusher role and one popper role, any interleaving -/
+
+/-- ring + the pusher role's and the popper role's program counters (`none` = not inside the call) -/
+structure RSys where
+  ring : Ring
+  pu : Option (PushPc × Val)
+  po : Option PopPc
+
+inductive RLabel
+  | push (v : Val)   -- pusher role: enter `push(v)` if outside, else perform its next access
+  | pop              -- popper role: enter `pop()` if outside, else perform its next access
+deriving DecidableEq, Repr
+
+def rstep (s : RSys) : RLabel → RSys
+  | .push v =>
+    match s.pu with
+    | none => { s with pu := some (.ldTail, v) }
+    | some (p, v') =>
+      match pushStep s.ring v' p with
+      | (r, .cont p') => { s with ring := r, pu := some (p', v') }
+      | (r, _) => { s with ring := r, pu := none }
+  | .pop =>
+    match s.po with
+    | none => { s with po := some .ldHead }
+    | some p =>
+      match popStep s.ring p with
+      | (r, .cont p') => { s with ring := r, po := some p' }
+      | (r, _) => { s with ring := r, po := none }
+
+def rrun (s : RSys) (ls : List RLabel) : RSys := ls.foldl rstep s
+
+def RSys.init (cap W : Nat) : RSys := ⟨Ring.init cap W 0, none, none⟩
 
 end RtcModel.Spsc
